@@ -107,7 +107,7 @@ func (sc *specSweepCheck) register() {
 	parserJudges[name] = sc.judge
 	register(&Check{
 		ID:        sc.id,
-		QuickSecs: 900, ThoroSecs: 1500,
+		QuickSecs: 900, ThoroSecs: 3000,
 		Rule:   sc.rule,
 		Assume: []string{"tokens outside the stated alphabet and argv longer than L are not covered", "cases inside the closed list of unspecified zones (DESIGN.md section 3) are executed (no panic, no hang) but not compared"},
 		Run: func(c *RunCtx) {
